@@ -61,15 +61,15 @@ def drv(op, ns=1, item=4, nbits=31, ratio=None, ratio_bits=None, solver=None, ti
                       'cr.c:_soxr_delay', 'fifo.h:fifo_reserve', 'fifo.h:fifo_read', 'fifo.h:fifo_occupancy'])
 
 
-CRE_MODES = {0: 'validate', 1: 'allocfail', 2: 'clear_eq_fresh', 3: 'select'}
+CRE_MODES = {0: 'validate', 1: 'allocfail', 2: 'clear_eq_fresh', 3: 'select', 4: 'lsr_reset_new_ratio'}
 CRE_STUB = ('allocation model for soxr.c: calloc/free redirected to exactly-sized typed malloc objects with a live-block ghost counter '
             '(and, for C20, one symbolic failure bit per allocation event); control-block memcpy / object memset done on typed objects')
 ENVSTR_STUB = 'getenv() returns any subset of the SOXR_* variables with any int value (atoi model decodes it)'
 
 
-def create_obl(mode, kind=2, ch=2, orate='1.0', timeout=600, tiers=('quick', 'thorough'), prec=20):
-    name = 'create_%s_k%d_ch%d_or%s' % (CRE_MODES[mode], kind, ch, orate.replace('.', 'p').replace('-', 'm'))
-    defs = ['-DVF_MODE=%d' % mode, '-DVF_KIND=%d' % kind, '-DVF_ORATE=%s' % orate, '-DAE_NO_SEQ', '-DVF_PREC=%d' % prec]
+def create_obl(mode, kind=2, ch=2, orate='1.0', timeout=600, tiers=('quick', 'thorough'), prec=20, lsrid=None):
+    name = 'create_%s_k%d_ch%d_or%s' % (CRE_MODES[mode], kind, ch, orate.replace('.', 'p').replace('-', 'm')) + ('' if lsrid is None else '_type%d' % lsrid)
+    defs = ['-DVF_MODE=%d' % mode, '-DVF_KIND=%d' % kind, '-DVF_ORATE=%s' % orate, '-DAE_NO_SEQ', '-DVF_PREC=%d' % prec] + ([] if lsrid is None else ['-DVF_LSRID=%d' % lsrid])
     if mode != 3:
         defs.append('-DVF_CH=%d' % ch)
     return Obl(name=name, src='create_step.c', defs=defs, unwind=3, native_srcs=['src/data-io.c'],
@@ -78,7 +78,7 @@ def create_obl(mode, kind=2, ch=2, orate='1.0', timeout=600, tiers=('quick', 'th
                desc='soxr.c object life-cycle (%s): real soxr_create/initialise/soxr_set_io_ratio/soxr_clear/soxr_delete over the abstract engine, engine kind %d, %s channel(s), output rate %s' % (CRE_MODES[mode], kind, ch if mode != 3 else 'any', orate),
                bounds='channels == %s; output rate == %s, input rate any finite double (0 or 1e-6..1e12 in magnitude); every other spec field symbolic (no NaN); <= 24 allocation events' % (ch if mode != 3 else '0..2', orate),
                stubs=[AE_STUB, CRE_STUB, ENVSTR_STUB],
-               ignore_props=[r'no body for callee (fputc|vfprintf)'],
+               ignore_props=[r'no body for callee (fputc|vfprintf|log10|log|pow|exp)'],
                funcs=['soxr.c:soxr_create', 'soxr.c:initialise', 'soxr.c:soxr_set_io_ratio', 'soxr.c:soxr_clear', 'soxr.c:soxr_delete0',
                       'soxr.c:soxr_delete', 'soxr.c:fatal_error', 'soxr.c:soxr_delay', 'soxr.c:runtime_num', 'soxr.c:runtime_flag',
                       'soxr.c:should_use_simd32', 'soxr.c:should_use_simd64'])
